@@ -53,6 +53,15 @@ CLAIMED["C07"] = ("verif-mgr", "DESIGN.md §3 C07",
     "no path carrying a fresh penalty is handed out while such an alternative is cached (covers premature return and eligibility after decay); a report concerning no cached path leaves the active path unchanged. Evidence, not proof.",
     MGR_NOTE + " Paths without metadata are excluded from C07 runs (interface reports cannot be matched against them by design).", MGR_TECH)
 
+CLAIMED["C20"] = ("verif-mgr", "DESIGN.md §3 C20",
+    "Pre-emptive schedule search: 1-4 concurrent callers (path / cached_path, some cancelled at a drawn await point), the worker task(s) the manager spawns, a lookup service completing each lookup with ok/empty/error at a drawn point, "
+    "and a controller (stop_managing_paths, deferred garbage collection of removed entries, idle expiry by clock advance, dropping the manager in its own actor) are interleaved by a seeded scheduler that may pre-empt every actor "
+    "before/after each acquisition and release of the manager's mutexes, each load/store of the active-path slot and each operation on the managed-pair index. Oracles: at every point where no actor can run, no un-cancelled caller is blocked "
+    "unless a lookup for its pair is outstanding (lost wake-up) and nobody waits for a lock (deadlock); runs consisting only of concurrent first requests start exactly one worker per pair; after the last manager handle is dropped and "
+    "lookups finish every worker actor terminates; no panic. Evidence, not proof.",
+    MGR_NOTE + " Pre-emption exists only at hooked points; Notify, broadcast, ArcSwap internals are atomic steps; the managed-pair index is the simulator's model of scc::HashIndex (scc itself is trusted).",
+    "deterministic simulation with fault injection (baton-passing actor threads with seeded pre-emption at hooked synchronisation points, quiescence/lost-wake-up oracle, replayable choice vector, shrinking)")
+
 NOT_APPLICABLE = {
     "C02": "pure function of a byte string (no stream, timer, shared state or fault in it): not a simulation target; needs exhaustive enumeration / a memory checker",
     "C03": "pure function of a packet model / byte string: needs an independent reference decoder and boundary-directed input generation, not a scheduler",
@@ -72,7 +81,6 @@ PENDING = {
     "C11": "engine net-sim not built yet in this round (planned: DESIGN.md §3 C11); not claimed until its check exists",
     "C13": "engine net-sim not built yet in this round (planned: DESIGN.md §3 C13); not claimed until its check exists",
     "C14": "engine net-sim not built yet in this round (planned: DESIGN.md §3 C14); not claimed until its check exists",
-    "C20": "engine mgr-sim not built yet in this round (planned: DESIGN.md §3 C20); not claimed until its check exists",
 }
 
 ENGINES = {
